@@ -3,4 +3,5 @@ package sim
 // Scenarios maps a property id to its scenario constructor.
 var Scenarios = map[string]func() *Scenario{
 	"C01": C01Scenario,
+	"C02": C02Scenario,
 }
